@@ -77,7 +77,11 @@ Proof. unfold meta_update_capacity; zb; lia. Qed.
 Lemma b_mgr_recreate t i : mgr_recreate_cond (zz t) (zz i) = (i <=? S t).
 Proof. unfold mgr_recreate_cond; zb. destruct (Z.leb_spec (Z.of_nat i) (Z.of_nat t + 1)), (Nat.leb_spec i (S t)); auto; lia. Qed.
 
-Global Opaque pfi_zero_cond pfi_zero_ret reserve_skip_cond reserve_new_capacity eb_grow_cond eb_grow_arg eb_reuse_cond pfi_reserve_arg
+(* message.Clear() is the last statement of MessageAllocationMetadata::reserve itself (not of one of its callers) *)
+Lemma b_msg_reserve_clears : msg_reserve_clears = true.
+Proof. reflexivity. Qed.
+
+Global Opaque msg_reserve_clears pfi_zero_cond pfi_zero_ret reserve_skip_cond reserve_new_capacity eb_grow_cond eb_grow_arg eb_reuse_cond pfi_reserve_arg
   pfi_move_end pfi_recon_end pfi_loop1_start pfi_loop2_start pfi_construct_src pfi_assign_src pfi_new_size
   ins_fill_end insr_fill_end emplace_reuse_cond erase_new_size_delta resize_grow_cond resizev_grow_cond
   resize_recon_end resizev_recon_end clear_new_size meta_ctor_csize meta_ctor_capacity meta_update_capacity
